@@ -398,6 +398,31 @@ class Ctx:
                 self.proof_failure = {"where": rel, "enclosing": t, "log_tail": b["raw"]}
         return allok
 
+    def coqchk(self, props_module, timeout=1500, allow_axioms=()):
+        """Independent re-check of the compiled Props module and everything it depends on with coqchk
+        (thorough tier). Records an obligation 'coqchk:<module>' and the axioms coqchk lists."""
+        rc, out, t = sh(["coqchk", "-o", "-silent", "-Q", COQ, "LdkV", "LdkV.Props." + props_module], cwd=COQ, timeout=timeout)
+        self.timed("coqchk_s", t)
+        m = re.search(r"\* Axioms:(.*?)\n\s*\n", out, re.S)
+        axioms = []
+        if m:
+            axioms = [a.strip() for a in m.group(1).replace("<none>", "").split("\n") if a.strip()]
+        bad_flags = []
+        for label in ("type-in-type", "unsafe (co)fixpoints", "positivity is assumed"):
+            mm = re.search(re.escape(label) + r":(.*?)\n\s*\n", out, re.S)
+            if mm and "<none>" not in mm.group(1):
+                bad_flags.append(label)
+        allow = set(STDLIB_AXIOM_ALLOW) | set(allow_axioms)
+        notallowed = [a for a in axioms if a.split(".")[-1] not in allow and a not in allow]
+        ok = rc == 0 and not bad_flags and not notallowed
+        self.obligations.append(("coqchk:" + props_module, ok, "axioms: %s" % (", ".join(axioms) or "<none>") if rc == 0 else out[-400:]))
+        for a in axioms:
+            s_ = "axiom reported by coqchk -o for the closure of Props/%s: %s" % (props_module, a)
+            if s_ not in self.trusted_base:
+                self.trusted_base.append(s_)
+        self.coverage["coqchk"] = {"rc": rc, "axioms": axioms, "wall_s": round(t, 1)}
+        return ok
+
     def _locate_failed(self, where):
         try:
             f, ln = where.rsplit(":", 1)
